@@ -55,12 +55,12 @@ func (k PropKind) String() string {
 
 // Rewrite kinds reported in PropCmd.Rewrite.
 const (
-	RwPXAT      = "set-pxat"         // SET/SETEX/PSETEX with a relative or second-resolution expiry → SET k v PXAT ms
-	RwSetPlain  = "set-flags"        // SET … NX|XX|GET → SET k v [KEEPTTL]
-	RwPExpireAt = "pexpireat"        // EXPIRE/PEXPIRE/EXPIREAT → PEXPIREAT ms
-	RwAbsTTL    = "restore-absttl"   // RESTORE k ttl … → RESTORE k abs … ABSTTL
-	RwXaddID    = "xadd-id"          // XADD k * … → XADD k <ms-seq> …
-	RwDelExpire = "del-expired"      // a command that makes the key expire at once → DEL k
+	RwPXAT      = "set-pxat"       // SET/SETEX/PSETEX with a relative or second-resolution expiry → SET k v PXAT ms
+	RwSetPlain  = "set-flags"      // SET … NX|XX|GET → SET k v [KEEPTTL]
+	RwPExpireAt = "pexpireat"      // EXPIRE/PEXPIRE/EXPIREAT → PEXPIREAT ms
+	RwAbsTTL    = "restore-absttl" // RESTORE k ttl … → RESTORE k abs … ABSTTL
+	RwXaddID    = "xadd-id"        // XADD k * … → XADD k <ms-seq> …
+	RwDelExpire = "del-expired"    // a command that makes the key expire at once → DEL k
 	RwOther     = "other"
 )
 
@@ -103,15 +103,15 @@ type PropagationOptions struct {
 }
 
 type propOp struct {
-	db       int
-	cmd      string
-	args     [][]byte
-	out      [][]byte
-	rewrite  string
-	conn     int64
-	reqSeq   int64
-	txn      int64
-	pos      int
+	db      int
+	cmd     string
+	args    [][]byte
+	out     [][]byte
+	rewrite string
+	conn    int64
+	reqSeq  int64
+	txn     int64
+	pos     int
 }
 
 // Propagation is the handle returned by EnablePropagation.
@@ -119,16 +119,16 @@ type Propagation struct {
 	srv        *Server
 	wrapSingle bool
 
-	mu      sync.Mutex
-	base    int64
-	buf     []byte
-	log     []PropCmd
-	lastDB  int
-	units   int
-	wake    chan struct{}
-	closed  bool
-	onApp   []func(off int64, b []byte)
-	stats   map[string]int64
+	mu     sync.Mutex
+	base   int64
+	buf    []byte
+	log    []PropCmd
+	lastDB int
+	units  int
+	wake   chan struct{}
+	closed bool
+	onApp  []func(off int64, b []byte)
+	stats  map[string]int64
 
 	// transaction being executed (touched only with the server lock held)
 	inTxn   bool
